@@ -44,4 +44,66 @@ theorem copyLoop_spec (ns : List (Node α)) (n : Nat) (hn : 0 < n)
         · simp only [List.drop_succ_cons]
           rw [ha, t3]
 
+/-! ### the compaction of the consumed nodes -/
+
+/-- removing some of the nodes in front of `r' ≤ flush` keeps the chain invariant (indices shift);
+`read` is put at the first node that was at `r'`. -/
+theorem Shape.compact {nodes : List (Node α)} {r f w ro app} (h : Shape nodes r f w ro app)
+    (r' : Nat) (hr' : r' ≤ f) (p : Node α → Bool) :
+    Shape ((nodes.take r').filter p ++ nodes.drop r') ((nodes.take r').filter p).length
+      (f - (r' - ((nodes.take r').filter p).length)) (w - (r' - ((nodes.take r').filter p).length)) ro app := by
+  have hfl := h.f_le
+  have htl : (nodes.take r').length = r' := by simp; omega
+  have hkl : ((nodes.take r').filter p).length ≤ r' := by
+    have := List.length_filter_le p (nodes.take r'); omega
+  generalize hk : (nodes.take r').filter p = kept at hkl ⊢
+  refine ⟨by omega, by simp; omega, ?_, ?_, ?_⟩
+  · intro i nd hi
+    by_cases hik : i < kept.length
+    · rw [List.getElem?_append_left hik] at hi
+      have hm : nd ∈ nodes.take r' := by
+        have := List.mem_of_getElem? hi
+        rw [← hk] at this
+        exact (List.mem_filter.1 this).1
+      obtain ⟨j, hj⟩ := List.getElem?_of_mem hm
+      have hjr : j < r' := by
+        rcases List.getElem?_eq_some_iff.1 hj with ⟨hh, _⟩; omega
+      rw [List.getElem?_take] at hj
+      simp only [hjr, if_true] at hj
+      have hn := h.node j nd hj
+      refine ⟨hn.1, fun _ => hn.2.1 (by omega), fun _ hh => by omega, ?_, hn.2.2.2.2⟩
+      intro hro
+      obtain ⟨a1, a2, _⟩ := hn.2.2.2.1 hro
+      have := h.wr hro
+      exact ⟨a1, a2, fun hh => by omega⟩
+    · rw [List.getElem?_append_right (by omega), List.getElem?_drop] at hi
+      have hn := h.node _ nd hi
+      refine ⟨hn.1, fun hh => hn.2.1 (by omega), fun ha hh => hn.2.2.1 ha (by omega), ?_, hn.2.2.2.2⟩
+      intro hro
+      obtain ⟨a1, a2, a3⟩ := hn.2.2.2.1 hro
+      have := h.wr hro
+      exact ⟨a1, a2, fun hh => a3 (by omega)⟩
+  · intro hro; have := h.wr hro; simp; omega
+  · intro hro; have := h.rd hro; simp; omega
+
+/-- the refinement relation after the compaction step of readCopy -/
+theorem R.compact {b : LB α} {q : Q α} (hR : R b q) (r' : Nat) (hr' : r' ≤ b.f)
+    (habs : absL (b.nodes.drop r') = b.abs) (p : Node α → Bool) :
+    R { b with nodes := (b.nodes.take r').filter p ++ b.nodes.drop r',
+               r := ((b.nodes.take r').filter p).length,
+               f := b.f - (r' - ((b.nodes.take r').filter p).length),
+               w := b.w - (r' - ((b.nodes.take r').filter p).length) } q := by
+  refine ⟨?_, hR.len, hR.mlen, fun hd => (hR.shape hd).compact r' hr' p, hR.cache, hR.flags⟩
+  show absL (((b.nodes.take r').filter p ++ b.nodes.drop r').drop ((b.nodes.take r').filter p).length) = q.items
+  rw [List.drop_left' rfl, habs, hR.abs]
+
+/-- `skipEmptyRel` from `read`, from the chain invariant alone -/
+theorem skipEmptyRel_of_shape {nodes : List (Node α)} {r f w ro app} (hsh : Shape nodes r f w ro app) :
+    ∃ r', skipEmptyRel (nodes.drop r) r f = some r' ∧ r ≤ r' ∧ r' ≤ f ∧
+      absL (nodes.drop r') = absL (nodes.drop r) := by
+  obtain ⟨j, e, h1, h2⟩ := skipEmptyRel_spec (nodes.drop r) r f hsh.r_le_f
+    (by have := hsh.f_le; simp; omega)
+    (fun i nd hi hlt => (hsh.node (r + i) nd (by rw [List.getElem?_drop] at hi; exact hi)).2.1 (by omega))
+  exact ⟨r + j, e, by omega, h1, by rw [← List.drop_drop, h2]⟩
+
 end Netpoll.Buf
